@@ -309,16 +309,21 @@ private:
       return;
     }
 
+    {
+      std::lock_guard<std::mutex> lock(callback_lock);
+      auto el_ref = std::find(callback_keys.begin(), callback_keys.end(), key);
+      if (el_ref == callback_keys.end()) {
+        // The owner outlived the incarnation of the sandbox it was registered
+        // with (destroy_sandbox already dropped the registration). As above,
+        // swallow this: RAII owners may be cleaned up late.
+        return;
+      }
+      callback_keys.erase(el_ref);
+    }
+
     this->template impl_unregister_callback<
       detail::convert_to_sandbox_equivalent_t<T_Ret, T_Sbx>,
       detail::convert_to_sandbox_equivalent_t<T_Args, T_Sbx>...>(key);
-
-    std::lock_guard<std::mutex> lock(callback_lock);
-    auto el_ref = std::find(callback_keys.begin(), callback_keys.end(), key);
-    detail::dynamic_check(
-      el_ref != callback_keys.end(),
-      "Unexpected state. Unregistering a callback that was never registered.");
-    callback_keys.erase(el_ref);
   }
 
   static T_Sbx* find_sandbox_from_example(const void* example_sandbox_ptr)
@@ -449,6 +454,16 @@ public:
     }
 
     sandbox_created.store(Sandbox_Status::NOT_CREATED);
+
+    // Nothing that belongs to this incarnation may be visible in the next one
+    {
+      std::lock_guard<std::mutex> lock(callback_lock);
+      callback_keys.clear();
+    }
+    {
+      RLBOX_ACQUIRE_UNIQUE_GUARD(lock, func_ptr_cache_lock);
+      func_ptr_map.clear();
+    }
     return this->impl_destroy_sandbox();
   }
 
